@@ -99,6 +99,8 @@ structure KeysRel (gk : GKeys) (k : Keys) : Prop where
   feats : gk.rFeatures = k.features
   members : String.ofList (flat gk.members) = k.members
   props : hasPropsOf gk.members = k.hasProps
+  dec : k.foreign ≠ [] → decodeObj gk.members = some (.obj k.foreign)
+  mem0 : k.foreign = [] → gk.members = []
 
 theorem ofList_eq_empty (l : List Char) : (String.ofList l == "") = (l == []) := by
   cases l with
